@@ -30,7 +30,7 @@ ASSUMPTIONS = [
     "on grids with a flow cycle, or with max_accumulated_cells below the longest "
     "chain, only termination without error is required",
 ]
-OBLIGATIONS = {"acyclic": 300, "cyclic": 100, "field:default": 100,
+OBLIGATIONS = {"long-path": 1, "acyclic": 300, "cyclic": 100, "field:default": 100,
                "field:negatives": 100, "field:zeros": 50, "field:reachable-nodata": 50, "has-upstream": 200,
                "terminal-cell": 200, "reduced-max": 20, "random-forest": 5,
                "inputs-unaltered": 300, "dtype-variant": 100, "layout-variant": 50,
@@ -324,6 +324,55 @@ def run_huge_grid(ctx):
     ctx.nontrivial("huge", 2 ** 27)
 
 
+def run_long_path(ctx, variant=0):
+    """one flow path much longer than any round limit (a river of 17 000 to 70 000 cells
+    in a single row, column or snake): with the default options every cell holds the sum
+    of the field over all cells upstream of it and itself"""
+    g = mods()
+    rng = np.random.default_rng(ctx.seed + 5 + variant)
+    n = [17000, 33000, 16390, 70000][variant % 4]
+    how = ["row-east", "column-south", "row-west", "row-east"][variant % 4]
+    if how == "row-east":
+        fd = g.Grid("fd", n, 1, dtype=np.int64); fd.fill(1)
+    elif how == "row-west":
+        fd = g.Grid("fd", n, 1, dtype=np.int64); fd.fill(16)
+    else:
+        fd = g.Grid("fd", 1, n, dtype=np.int64); fd.fill(4)
+    fld = rng.integers(1, 9, size=n).astype(float) / 4.0
+    ta = g.Grid("ta", fd.ncols, fd.nrows, dtype=np.float64, nodata=-9999.0)
+    ta.data = fld.reshape(fd.shape)
+    ctx.evaluated()
+    ctx.tag("long-path")
+    case = {"kind": "longpath", "variant": variant, "n": n, "how": how}
+    for nm, field in (("default", None), ("field", ta)):
+        ctx.api("accumulate")
+        try:
+            with warnings.catch_warnings():
+                warnings.simplefilter("ignore")
+                acc = g.accumulate(fd, nprint=10 ** 9) if field is None else \
+                    g.accumulate(fd, field, nprint=10 ** 9)
+            a = np.asarray(acc.data, dtype=float).ravel()
+        except Exception as e:
+            ctx.check("accumulate.long-path", False, "accumulate|long-path|raises", case,
+                      {"exc": repr(e)[:200]})
+            continue
+        f_ = np.ones(n) if field is None else fld
+        if how == "row-west":
+            exp = np.cumsum(f_[::-1])[::-1].copy()
+            term = 0
+        else:
+            exp = np.cumsum(f_)
+            term = n - 1
+        # (the last cell flows off the grid: a terminal cell holds the no-data value)
+        keep = np.ones(n, dtype=bool); keep[term] = False
+        bad = np.where(keep & ~(np.abs(a - exp) <= 1e-9 * exp))[0]
+        ctx.check("accumulate.long-path", len(bad) == 0,
+                  "accumulate|value|path-of-tens-of-thousands-of-cells", dict(case, field=nm),
+                  lambda: {"first_wrong_cell": int(bad[0]), "got": float(a[bad[0]]),
+                           "expected": float(exp[bad[0]]), "wrong_cells": int(len(bad))})
+    ctx.nontrivial("longpath", n, how)
+
+
 def run(ctx):
     maxc = 4 if ctx.tier == "quick" else 5
     rng = ctx.rng(1)
@@ -403,6 +452,10 @@ def run(ctx):
         run_huge_grid(ctx)
     if ctx.shard == 1 % ctx.nshards:
         run_terminal_case(ctx)
+    if ctx.shard == 2 % ctx.nshards:
+        run_long_path(ctx, ctx.seed % 3)
+    if ctx.tier == "thorough" and ctx.shard in (3, 4, 5, 6):
+        run_long_path(ctx, ctx.shard - 3)
     nrand = 10 if ctx.tier == "quick" else 800
     for it in range(nrand):
         if ctx.out_of_time():
@@ -428,4 +481,6 @@ def replay(ctx, case):
         return run_huge_grid(ctx)
     if case.get("kind") == "terminal":
         return run_terminal_case(ctx)
+    if case.get("kind") == "longpath":
+        return run_long_path(ctx, int(case.get("variant", 0)))
     run_case(ctx, case)
